@@ -27,6 +27,15 @@ def handle (j : Json) : Json :=
   | "keysAt" =>
     let vs := chain j "versions"
     jarr ((getArr j "queries").map fun q => jstrs (validKeysAt vs (getStr q "clock") (getNat q "t")))
+  | "check" =>
+    let vs := chain j "versions"
+    jarr ((getArr j "commits").map fun c =>
+      let sig := match getStr? c "key" with
+        | some k => Sig.signedBy k (getBool c "good")
+        | none => Sig.unsigned
+      match checkCommit vs (getStr j "clock") (getNat c "t") sig with
+      | .accepted => Json.str "accepted"
+      | .signatureError => Json.str "signatureError")
   | c => Json.mkObj [("bad-op", Json.str c)]
 
 end Driver.C09
